@@ -562,12 +562,15 @@ func genDecrypt() {
 		how := rng.Intn(10)
 		in := append([]byte{}, ct...)
 		usePw := pw
+		craftedOK, expect := false, data // a crafted container that is well-formed decrypts to what it encodes
 		switch how {
 		case 9:
 			// a well-formed container (right checksum, right password) around a body that Encrypt never makes:
 			// no length field, a length beyond the data, no block at all, a body that is not a multiple of the block size
 			if name == "sha256-xor" {
-				in = xorContainer(oddBody(data), pw)
+				body, ok, want := oddBody(data)
+				in = xorContainer(body, pw)
+				craftedOK, expect = ok, want
 			} else {
 				in = in[:len(in)/2]
 			}
@@ -616,37 +619,43 @@ func genDecrypt() {
 			out, derr = decf(in, usePw)
 		}()
 		emit(rec{"fn": "decrypt", "cipher": name, "how": how, "len": len(in), "panic": pan, "panicMsg": panMsg, "input": string(in), "err": derr != nil,
-			"plaintext": derr == nil && !pan && bytes.Equal(out, data), "untouched": how == 0})
+			"plaintext": derr == nil && !pan && bytes.Equal(out, expect), "untouched": how == 0 || craftedOK})
 	}
 }
 
 // the decrypted body of a sha256-xor container: hash of the rest, 4-byte length, data, padding
-func oddBody(data []byte) []byte {
+func oddBody(data []byte) (body []byte, wellFormed bool, encodes []byte) {
 	le := func(n uint32) []byte { return []byte{byte(n), byte(n >> 8), byte(n >> 16), byte(n >> 24)} }
 	var rest []byte
+	noPad := false
 	switch rng.Intn(7) {
 	case 0: // nothing behind the hash
-	case 1: // a cut length field
+	case 1: // a cut length field (left unpadded: padding would complete it)
 		rest = le(uint32(len(data)))[:1+rng.Intn(3)]
+		noPad = true
 	case 2: // a length beyond the data
-		rest = append(le(uint32(len(data)+1+rng.Intn(1000))), data...)
+		rest = append(le(uint32(len(data)+32+rng.Intn(1000))), data...) // beyond any padding as well
 	case 3: // the largest length
 		rest = append(le(0xffffffff), data...)
-	case 4: // length zero, data present
+	case 4: // length zero, data present: by the format an empty plaintext followed by padding
 		rest = append(le(0), data...)
+		wellFormed, encodes = true, []byte{}
 	case 5: // correct
 		rest = append(le(uint32(len(data))), data...)
+		wellFormed, encodes = true, data
 	case 6:
-		return []byte{} // not even a hash
+		return []byte{}, false, nil // not even a hash
 	}
-	h := cipher.SumSHA256(rest)
-	body := append(h[:], rest...)
-	if rng.Intn(3) > 0 { // padded to the block size, as Encrypt does - or not
-		for len(body)%32 != 0 {
-			body = append(body, 0)
-		}
+	pad := 0
+	for (32+len(rest)+pad)%32 != 0 {
+		pad++
 	}
-	return body
+	if (noPad || rng.Intn(3) == 0) && pad > 0 {
+		pad, wellFormed = 0, false // not padded to the block size
+	}
+	rest = append(rest, make([]byte, pad)...)
+	h := cipher.SumSHA256(rest) // the hash covers the padding too
+	return append(h[:], rest...), wellFormed, encodes
 }
 
 // sha256-xor container around an arbitrary body, built from the documented format: base64(SHA256(nonce|blocks) | nonce | blocks),
